@@ -160,7 +160,7 @@ var checks = []Check{
 		Property: "C18",
 		Harnesses: []Harness{
 			{Dir: ".", Func: "H_C18_upload", Quick: P{"maxlen": 5}, Thorough: P{"maxlen": 8, "maxchunk": 4, "maxbuf": 6}},
-			{Dir: ".", Func: "H_C18_download", Quick: P{"maxlen": 3, "steps": 3, "maxread": 2, "maxchunk": 2, "maxbuf": 2}, Thorough: P{"maxlen": 5, "steps": 3, "maxread": 3, "maxchunk": 3, "maxbuf": 3}},
+			{Dir: ".", Func: "H_C18_download", Quick: P{"maxlen": 5, "steps": 3, "rsr": 1, "onewrite": 1, "maxread": 3, "maxchunk": 3, "maxbuf": 3}, Thorough: P{"maxlen": 5, "steps": 3, "maxread": 3, "maxchunk": 3, "maxbuf": 3}},
 		},
 		Assumptions: append([]string{"the real UploadStream/DownloadStream code runs against in-memory mock collections written in the harness (insert copies the chunk bytes as the codec would; Find returns the file's chunks sorted by n after skip); the collection layer under the bucket is C01's subject",
 			"streams are built in-package with a small upload buffer: the code uses len(s.buffer) only, so the 16 MiB constant is a parameter"}, commonAssumptions...),
@@ -257,7 +257,8 @@ var checks = []Check{
 	{
 		Property: "C19",
 		Harnesses: []Harness{
-			{Dir: ".", Func: "H_C19_expire", Quick: P{"maxdocs": 1}, Thorough: P{"maxdocs": 2}},
+			{Dir: ".", Func: "H_C19_expire", Quick: P{"maxdocs": 2, "fixedclock": 1}, Thorough: P{"maxdocs": 2, "fixedclock": 1}, Note: "the clock stands still at one arbitrary instant"},
+			{Dir: ".", Func: "H_C19_expire", Thorough: P{"maxdocs": 1}, Note: "arbitrary non-decreasing clock (second roll-over between the writes and the pass)"},
 			lemClone,
 		},
 		Assumptions: append([]string{"clock model: arbitrary non-decreasing instants; the pass is bracketed by two clock readings t0 <= now <= t1: documents older than t0-expiry must go, documents not older than t1-expiry must stay, in between either outcome is accepted"}, commonAssumptions...),
